@@ -191,7 +191,8 @@ pub fn run(tier: Tier, replay: Option<Value>) -> ! {
     // corpus lines
     let corpus = crate::corpus::lines(tier);
     rep.set("corpus_lines", corpus.len() as u64);
-    let cfg = PoolCfg::new("c19").timeout_ms(10_000);
+    let cfg1 = PoolCfg::new("c19").timeout_ms(3_000);
+    let cfg = PoolCfg::new("c19").timeout_ms(10_000).no_confirm();
     let chunks: Vec<Vec<u8>> = corpus.chunks(50).map(|c| json!({"lines": c}).to_string().into_bytes()).collect();
     let outs = pool::run(&cfg, &chunks);
     for (i, o) in outs.iter().enumerate() {
@@ -200,7 +201,7 @@ pub fn run(tier: Tier, replay: Option<Value>) -> ! {
             other => {
                 // isolate line by line
                 let singles: Vec<Vec<u8>> = corpus.chunks(50).nth(i).unwrap().iter().map(|l| json!({"lines":[l]}).to_string().into_bytes()).collect();
-                let o2 = pool::run(&cfg, &singles);
+                let o2 = pool::run(&cfg1, &singles);
                 for (l, o) in corpus.chunks(50).nth(i).unwrap().iter().zip(o2) {
                     match o {
                         Outcome::Ok(b) => absorb(&mut rep, &b, &mut sigs),
